@@ -168,7 +168,7 @@ fn e2e_layer(rep: &mut Report) {
         transitions: n_tokens,
         executions: n_runs,
         exhaustive: false,
-        bound: format!("{} projects (a program with non-ASCII strings/comments before identifiers on the same line, and the base workspaces) x 3 line layouts of the main module, through the real router (didOpen + semanticTokens/full), decoded by the reference client and compared with the go-to-definition/hover classification of EVERY identifier", projects.len()),
+        bound: format!("{} projects (a program with non-ASCII strings/comments before identifiers on the same line, and the base workspaces) x 3 line layouts of the main module, through the real router (didOpen + semanticTokens/full), decoded by the reference client and compared with the go-to-definition/hover classification of EVERY identifier; plus semanticTokens/range from every line start to every token boundary / line end after it (tokens of the full stream inside the range must be there, nothing else may)", projects.len()),
         ..Default::default()
     });
     rep.distinct_outcomes = classes.len() as u64 + 1;
@@ -291,6 +291,55 @@ fn e2e_project(rep: &mut Report, pname: &str, mods: &[(String, String)], n_token
         for w in dec.windows(2) {
             if !(w[0] < w[1]) {
                 rep.violation(Violation { class: "not-increasing".into(), key: "e2e".into(), witness: json!({"layout": layout}), detail: format!("tokens not strictly increasing: {:?} then {:?}", w[0], w[1]) });
+            }
+        }
+        // range requests: from every line start to every token boundary / line end after it.
+        // The answer must consist of tokens of the full stream and contain every one of them
+        // that lies entirely inside the range (tokens cut by an end of the range may go either way).
+        if layout == 0 {
+            let mut ends: BTreeSet<(u32, u32)> = BTreeSet::new();
+            for t in &dec {
+                ends.insert((t.line, t.start));
+                ends.insert((t.line, t.start + t.len));
+            }
+            let n_lines = text.matches('\n').count() as u32 + 1;
+            for l in 0..n_lines {
+                if let Some(o) = doc.offset_of(l, 0) {
+                    let line_len = text[o..].split('\n').next().unwrap_or("").encode_utf16().count() as u32;
+                    ends.insert((l, line_len));
+                }
+            }
+            let mut bad = 0;
+            for sl in 0..n_lines {
+                for &(el, ec) in ends.iter().filter(|e| **e > (sl, 0)) {
+                    *n_runs += 1;
+                    let resp = srv.request("textDocument/semanticTokens/range", json!({"textDocument": {"uri": uri}, "range": {"start": {"line": sl, "character": 0}, "end": {"line": el, "character": ec}}}));
+                    let data: Vec<u32> = match resp {
+                        Ok(Ok(v)) => v["data"].as_array().map(|a| a.iter().filter_map(|x| x.as_u64()).map(|x| x as u32).collect()).unwrap_or_default(),
+                        other => {
+                            rep.violation(Violation { class: "e2e-no-answer".into(), key: "semanticTokens/range".into(), witness: json!({"project": pname, "range": [sl, 0, el, ec]}), detail: format!("semanticTokens/range {sl}:0-{el}:{ec} failed: {other:?}") });
+                            continue;
+                        }
+                    };
+                    let quads: Vec<(u32, u32, u32, u32)> = data.chunks(5).filter(|c| c.len() == 5).map(|c| (c[0], c[1], c[2], c[3])).collect();
+                    let Some(rdec) = decode_tokens(&quads) else {
+                        rep.violation(Violation { class: "decode-overflow".into(), key: "range".into(), witness: json!({"range": [sl, 0, el, ec]}), detail: "relative encoding of a range answer overflows".into() });
+                        continue;
+                    };
+                    n_tokens += rdec.len() as u64;
+                    let rgot: BTreeSet<AbsToken> = rdec.iter().cloned().collect();
+                    let inside: BTreeSet<AbsToken> = dec.iter().filter(|t| (t.line, t.start) >= (sl, 0) && (t.line, t.start + t.len) <= (el, ec)).cloned().collect();
+                    if bad < 3 {
+                        if let Some(m) = inside.difference(&rgot).next() {
+                            bad += 1;
+                            rep.violation(Violation { class: "range-missing-token".into(), key: if (m.line, m.start + m.len) == (el, ec) { "token ending at the range end".into() } else if (m.line, m.start) == (sl, 0) { "token starting at the range start".into() } else { "token inside the range".into() }, witness: json!({"project": pname, "range": [sl, 0, el, ec], "token": [m.line, m.start, m.len, m.ty]}), detail: format!("{pname}: semanticTokens/range {sl}:0-{el}:{ec} lacks the token {:?} at {}:{} len {}, which lies inside the range and is in the full stream", name_at(m), m.line, m.start, m.len) });
+                        }
+                        if let Some(m) = rgot.difference(&got).next() {
+                            bad += 1;
+                            rep.violation(Violation { class: "range-foreign-token".into(), key: "range".into(), witness: json!({"project": pname, "range": [sl, 0, el, ec], "token": [m.line, m.start, m.len, m.ty]}), detail: format!("{pname}: semanticTokens/range {sl}:0-{el}:{ec} contains a token at {}:{} len {} that the full stream does not have", m.line, m.start, m.len) });
+                        }
+                    }
+                }
             }
         }
     }
